@@ -14,6 +14,7 @@ import (
 type verifChanPC struct {
 	in       chan verifRead
 	closedCh chan struct{}
+	expireCh chan struct{} // nil = never
 	mu       sync.Mutex
 	closed   int
 	local    net.Addr
@@ -31,8 +32,20 @@ func (c *verifChanPC) ReadFrom(p []byte) (int, net.Addr, error) {
 		return copy(p, r.data), r.addr, nil
 	case <-c.closedCh:
 		return 0, nil, net.ErrClosed
+	case <-c.expireCh:
+		return 0, nil, verifTimeoutErr{}
 	}
 }
+
+// Closed: how often Close was called (synchronised)
+func (c *verifChanPC) Closed() int {
+	c.mu.Lock()
+	defer c.mu.Unlock()
+	return c.closed
+}
+
+// Expire makes pending and later reads time out (the read deadline passed)
+func (c *verifChanPC) Expire() { close(c.expireCh) }
 func (c *verifChanPC) WriteTo(p []byte, addr net.Addr) (int, error) { return len(p), nil }
 func (c *verifChanPC) Close() error {
 	if c.onClose != nil {
@@ -414,11 +427,13 @@ func VH_C13_mixtures() {
 	}
 	verifQuiesce()
 	verifAssert("C13.mixtures.all-calls-return", len(done) == 2)
-	// the manager is still usable
-	h, err := lm.ListenPacket("127.0.0.1:9001")
-	verifAssert("C13.mixtures.manager-usable", err == nil)
-	if err == nil {
-		h.Close()
+	if len(done) == 2 {
+		// the manager is still usable
+		h, err := lm.ListenPacket("127.0.0.1:9001")
+		verifAssert("C13.mixtures.manager-usable", err == nil)
+		if err == nil {
+			h.Close()
+		}
 	}
 	verifReach("C13.mixtures.done", true)
 }
